@@ -69,3 +69,22 @@ package openapi3
 //@   ensures types == nil ==> len(result) == 0
 //@   ensures types != nil ==> same(result, *types)
 //@   tag C05
+
+// (C09) the operation a path item declares for a method
+//@ spec knownMethod(m string) bool :=
+//@     m == "CONNECT" || m == "DELETE" || m == "GET" || m == "HEAD" || m == "OPTIONS" || m == "PATCH" || m == "POST" || m == "PUT" || m == "TRACE"
+//@ spec opOf(pi *PathItem, m string) *Operation :=
+//@     m == "CONNECT" ? pi.Connect : m == "DELETE" ? pi.Delete : m == "GET" ? pi.Get : m == "HEAD" ? pi.Head : m == "OPTIONS" ? pi.Options
+//@   : m == "PATCH" ? pi.Patch : m == "POST" ? pi.Post : m == "PUT" ? pi.Put : m == "TRACE" ? pi.Trace : nil
+//@ func (*PathItem).GetOperation
+//@   requires pathItem != nil
+//@   panics_if !knownMethod(method)
+//@   modifies nothing
+//@   ensures [declared-operation] result == opOf(pathItem, method)
+//@   tag C09
+//@ func (*PathItem).Operations
+//@   requires pathItem != nil
+//@   modifies nothing
+//@   ensures [exactly-the-declared] fresh(result) && result != nil && (forall m string :: has(result, m) <==> (knownMethod(m) && opOf(pathItem, m) != nil))
+//@   ensures [values] forall m string :: has(result, m) ==> result[m] == opOf(pathItem, m)
+//@   tag C09
